@@ -29,8 +29,18 @@ def kclass(thr, D, n):
 def run(ctx) -> None:
     rng = ctx.rng
     ctx.require("flat_line.calls", 1000)
-    ctx.require("bounds.views_formed", 100)
-    ctx.require("bounds.views_read", 100)
+    import ioos_qc.qartod as q  # noqa: PLC0415
+
+    from vfw import core  # noqa: PLC0415
+
+    # the byte-bounds hook watches the as_strided rolling window of this implementation; a tree that computes the window
+    # range some other way has no such views to watch (its memory safety is left to the memcheck run of the thorough tier)
+    strided_impl = core.code_lines(q, "flat_line_test.<locals>.rolling_window") is not None
+    if strided_impl:
+        ctx.require("bounds.views_formed", 100)
+        ctx.require("bounds.views_read", 100)
+    else:
+        ctx.notes.append("flat_line_test has no as_strided rolling_window helper in this tree: byte-bounds hook not required")
     mon = hooks.BoundsMonitor()
     i = 0
     nmax = ctx.pick(14, 24)
